@@ -120,7 +120,7 @@ RS = ("var", "R$")
 
 NUM_CARRIERS = ["sub_both", "sub_both2", "assign", "assign_elem", "sub_rhs", "sub_lhs", "if_noelse", "if_else", "if_elif_cond", "if_arm", "for_start",
                 "for_limit", "for_step", "print_item", "print_at_pos", "on_sel", "dev_cls", "dev_hline", "dev_sound",
-                "dev_hcircle", "dev_poke", "read_sub", "input_sub", "loop_body", "jump_target", "two_statements", "width",
+                "dev_hcircle", "dev_poke", "read_sub", "read_filter_sub", "input_sub", "loop_body", "jump_target", "two_statements", "width",
                 "assign_raw", "assign_elem_raw", "print_raw", "print_item_raw", "print_at_raw", "print_last_raw", "print_many",
                 "varptr_sub", "varptr_sub2", "if_nested_false", "if_nested_true", "if_nested_deep",
                 "for_limit_step", "for_all_three", "poke_fast", "poke_slow", "poke_fast_hex", "assign_self", "assign_self_elem", "if_rem_then", "if_rem_then2", "self_bare", "if_and_false", "if_and_true", "if_or_true", "if_and_paren", "stale_tmp"]
@@ -262,6 +262,10 @@ def carrier(name, e):
         return one([("dev", "WIDTH", {"n": ("bin", "+", ("bin", "*", ("bin", "AND", e, n(0)), n(1)), n(40))})])
     if name == "read_sub":
         return [(30, [("read", [("arr", "Y", [("bin", "AND", e, n(7))])])]), (35, [("data", [("n", 55.0, ["55"])])])]
+    if name == "read_filter_sub":
+        # the program has an empty DATA item, so every numeric READ target goes through the filter procedure: the calls in
+        # the first target's subscript run while the second target's item waits in its own temporary
+        return [(30, [("read", [("arr", "Y", [("bin", "AND", e, n(7))]), R])]), (35, [("data", [("n", 55.0, ["55"]), ("n", 66.0, ["66"]), ("u", "")])])]
     if name == "input_sub":
         return one([("input", None, [("arr", "Y", [("bin", "AND", e, n(7))])], False)])
     if name == "loop_body":
